@@ -48,6 +48,7 @@ type cmdModel struct {
 	reachMemo map[*ssa.Function]int
 	persMemo  map[*ssa.Function]int
 	balMemo   map[*ssa.Function]int
+	waitMemo  map[*ssa.Function]map[int]bool
 }
 
 func (c *Ctx) cmdModel(rule string) *cmdModel {
@@ -301,4 +302,79 @@ func (t *errTracker) directNil(ret *ssa.Return) (known bool, isNil bool) {
 		return true, isNilConst(ret.Results[t.errIdx])
 	}
 	return false, false
+}
+
+// waitedDone returns the channel value that ins waits for: a receive `<-ch`, or a call of a repository function
+// whose every returning path receives on the parameter the channel is passed as (a `waitPersisted(done)` helper).
+func (m *cmdModel) waitedDone(c *Ctx, ins ssa.Instruction) ssa.Value {
+	switch x := ins.(type) {
+	case *ssa.UnOp:
+		if x.Op == token.ARROW {
+			return x.X
+		}
+	case *ssa.Call:
+		f := staticCallee(x)
+		if f == nil || len(f.Blocks) == 0 || !inRepo(fnPkgPath(f)) {
+			return nil
+		}
+		for i, a := range x.Call.Args {
+			if !isDoneChanType(a.Type()) || i >= len(f.Params) {
+				continue
+			}
+			if m.receivesOnParam(c, f, i) {
+				return a
+			}
+		}
+	}
+	return nil
+}
+
+func (m *cmdModel) receivesOnParam(c *Ctx, f *ssa.Function, idx int) bool {
+	if m.waitMemo == nil {
+		m.waitMemo = map[*ssa.Function]map[int]bool{}
+	}
+	if r, ok := m.waitMemo[f][idx]; ok {
+		return r
+	}
+	if m.waitMemo[f] == nil {
+		m.waitMemo[f] = map[int]bool{}
+	}
+	m.waitMemo[f][idx] = false
+	p := f.Params[idx]
+	ok, seen := true, false
+	pr := &PathRule{
+		Step: func(pc *PathCtx, s uint64, ins ssa.Instruction) uint64 {
+			if u, isU := ins.(*ssa.UnOp); isU && u.Op == token.ARROW && u.X == ssa.Value(p) {
+				return s | 1
+			}
+			return s
+		},
+		Exit: func(pc *PathCtx, s uint64, ins ssa.Instruction) {
+			if _, isRet := ins.(*ssa.Return); isRet {
+				seen = true
+				if s&1 == 0 {
+					ok = false
+				}
+			}
+		},
+	}
+	c.RunPaths(f, 0, pr)
+	m.waitMemo[f][idx] = ok && seen
+	return ok && seen
+}
+
+// handoffChan: is v the done channel produced by a hand-off call? Returns that call.
+func (m *cmdModel) handoffChan(c *Ctx, v ssa.Value) *ssa.Call {
+	e, ok := v.(*ssa.Extract)
+	if !ok {
+		return nil
+	}
+	call, ok := e.Tuple.(*ssa.Call)
+	if !ok {
+		return nil
+	}
+	if ci, _, ok := m.appendCall(c, call); ok && ci == e.Index {
+		return call
+	}
+	return nil
 }
